@@ -18,82 +18,47 @@ def load_interp():
     return harness.load()
 
 
-class PlainClaim:
-    pass
-
-
-def _run_one(args):
-    """worker: run one scenario (index into the module-level list set before forking) and return picklable results"""
-    idx = args
-    sc = _SCENARIOS[idx]
-    I = load_interp()
-    t0 = time.time()
-    try:
-        res, stats = sc.run(I)
-    except Exception as e:
-        import traceback
-        return dict(error="mirsym failed: %r %s" % (e, traceback.format_exc()[-600:]), time=time.time() - t0)
-    out = []
-    for r in res:
-        d = dict(name=r.name, status=r.status, paths=r.paths, queries=r.queries, time=r.time, detail=r.detail,
-                 reproduced=r.reproduced, replay_text=r.replay_text, replay_info=r.replay_info, decisions=None, consts=None)
-        if r.cex:
-            m = r.cex[0]
-            d["decisions"] = "".join("T" if x else "F" for x in r.cex[1])
-            d["consts"] = sorted((str(x), str(m[x])) for x in m.decls() if x.arity() == 0)
-        out.append(d)
-    st = {k: v for k, v in stats.items() if k in ("paths", "infeasible", "queries", "solver_time", "wall", "inconclusive", "samples")}
-    return dict(claims=out, stats=st, time=time.time() - t0)
-
-
-_SCENARIOS = []
-
-
-def run_scenarios(prop, oname_prefix, scenarios, ctx, bound, second_solver=False):
+def run_scenarios(prop, oname_prefix, scenarios, ctx, bound):
     """returns (obligations, samples).  One obligation per scenario; its claims are listed in the evidence.
-    Scenarios run in forked worker processes (the MIR is loaded once before forking)."""
-    import multiprocessing as mp
-    global _SCENARIOS
-    load_interp()
+    Paths are enumerated, then checked in forked worker processes (the MIR is loaded once before forking)."""
+    from mirsym import harness
     todo = []
     for sc in scenarios:
         name = "%s %s" % (oname_prefix, sc.name)
         if ctx.get("only") and ctx["only"] not in name:
             continue
         todo.append((name, sc))
-    _SCENARIOS = [sc for _, sc in todo]
-    results = {}
-    if todo:
-        jobs = max(1, min(len(todo), int(ctx.get("jobs", 8))))
-        with mp.get_context("fork").Pool(jobs) as pool:
-            for i, r in enumerate(pool.imap(_run_one, range(len(todo)))):
-                results[i] = r
+    t0 = time.time()
+    try:
+        results = harness.run_parallel([sc for _, sc in todo], jobs=int(ctx.get("jobs", 14)), log=common.log)
+    except Exception as e:
+        import traceback
+        results = None
+        err = "mirsym failed: %r %s" % (e, traceback.format_exc()[-500:])
     obls, samples = [], []
-    for i, (name, sc) in enumerate(todo):
+    for idx, (name, sc) in enumerate(todo):
         o = Obligation(name, "mirsym+z3", bound if isinstance(bound, str) else bound.get(sc.name, ""), "claims decided per symbolic path of the real MIR")
-        r0 = results[i]
-        o.time = r0["time"]
-        if "error" in r0:
-            o.status, o.detail = INCONCLUSIVE, r0["error"]
+        if results is None:
+            o.status, o.detail = INCONCLUSIVE, err
             obls.append(o)
             continue
-        res, stats = r0["claims"], r0["stats"]
+        _, res, stats = results[idx]
+        o.time = stats.get("solver_time", 0.0)
         o.queries = stats["queries"]
         o.extra["states"] = stats["paths"]
         o.extra["paths"] = stats["paths"]
         o.extra["solver_time_s"] = round(stats["solver_time"], 2)
-        o.extra["claims"] = [dict(claim=r["name"], status=r["status"], paths=r["paths"], queries=r["queries"]) for r in res]
-        common.log("  mirsym %-66s paths=%d queries=%d %.1fs" % (sc.name[:66], stats["paths"], stats["queries"], o.time))
+        o.extra["claims"] = [dict(claim=r.name, status=r.status, paths=r.paths, queries=r.queries, solver_s=round(r.time, 1)) for r in res]
         if stats.get("samples"):
             samples.append(dict(scenario=sc.name, **stats["samples"][0]))
-        bad = [r for r in res if r["status"] == "violated"]
-        inc = [r for r in res if r["status"] == "inconclusive"]
+        bad = [r for r in res if r.status == "violated"]
+        inc = [r for r in res if r.status == "inconclusive"]
         novel, known, unrepro = [], [], []
         for r in bad:
             o.extra["replays"] = o.extra.get("replays", 0) + 1
             path = write_replay(prop, sc, r)
-            if r["reproduced"]:
-                key = slug(r["name"])
+            if r.reproduced:
+                key = slug(r.name)
                 f = common.known_finding_for(prop, slug(name), key)
                 if f:
                     known.append((r, f))
@@ -104,15 +69,15 @@ def run_scenarios(prop, oname_prefix, scenarios, ctx, bound, second_solver=False
         if novel:
             o.status = VIOLATION
             o.replay = novel[0][1]
-            o.detail = "; ".join("claim '%s' violated (%s)" % (r["name"], r["replay_text"][:80]) for r, _ in novel)[:500]
+            o.detail = "; ".join("claim '%s' violated (%s)" % (r.name, r.replay_text[:80]) for r, _ in novel)[:500]
         elif inc or unrepro:
             o.status = INCONCLUSIVE
-            o.detail = "; ".join(["%s: %s" % (r["name"], r["detail"][:160]) for r in inc] +
-                                 ["counterexample for '%s' did not reproduce natively (%s) see %s" % (r["name"], r["replay_text"][:120], p) for r, p in unrepro])[:600]
+            o.detail = "; ".join(["%s: %s" % (r.name, r.detail[:160]) for r in inc] +
+                                 ["counterexample for '%s' did not reproduce natively (%s) see %s" % (r.name, r.replay_text[:120], p) for r, p in unrepro])[:600]
         elif known:
             o.status = KNOWN
-            o.key = slug(known[0][0]["name"])
-            o.detail = "; ".join("obligation=%s key=%s %s" % (slug(name), slug(r["name"]), f.get("text", "")) for r, f in known)
+            o.key = slug(known[0][0].name)
+            o.detail = "; ".join("obligation=%s key=%s %s" % (slug(name), slug(r.name), f.get("text", "")) for r, f in known)
         else:
             o.status = HOLDS
             o.detail = "%d claims on %d paths" % (len(res), stats["paths"])
@@ -122,13 +87,13 @@ def run_scenarios(prop, oname_prefix, scenarios, ctx, bound, second_solver=False
 
 def write_replay(prop, sc, r):
     os.makedirs(os.path.join(REPLAY_DIR, prop), exist_ok=True)
-    path = os.path.join(REPLAY_DIR, prop, slug(sc.name) + "__" + slug(r["name"]) + ".txt")
+    path = os.path.join(REPLAY_DIR, prop, slug(sc.name) + "__" + slug(r.name) + ".txt")
     with open(path, "w") as f:
-        f.write("property=%s scenario=%s\nclaim violated in the SMT encoding of the crate's MIR: %s\n" % (prop, sc.name, r["name"]))
-        f.write("path decisions: %s\n" % r["decisions"])
-        f.write("model (scalar symbols): %s\n" % r["consts"])
-        f.write("native replay: reproduced=%s %s\n" % (r["reproduced"], r["replay_text"]))
-        if r["replay_info"]:
-            f.write("pre-state / native claim values: %s\n" % {k: v for k, v in r["replay_info"].items() if k != "rust"})
-            f.write("\n--- native driver (appended to the crate copy and run with cargo test) ---\n%s\n" % r["replay_info"].get("rust", ""))
+        f.write("property=%s scenario=%s\nclaim violated in the SMT encoding of the crate's MIR: %s\n" % (prop, sc.name, r.name))
+        f.write("path decisions: %s\n" % r.cex_decisions)
+        f.write("model (scalar symbols): %s\n" % r.cex_consts)
+        f.write("native replay: reproduced=%s %s\n" % (r.reproduced, r.replay_text))
+        if r.replay_info:
+            f.write("pre-state / native claim values: %s\n" % {k: v for k, v in r.replay_info.items() if k != "rust"})
+            f.write("\n--- native driver (appended to the crate copy and run with cargo test) ---\n%s\n" % r.replay_info.get("rust", ""))
     return path
